@@ -168,6 +168,25 @@ def execute(env, sc):
         for i, q in enumerate(reqs):
             m = c.read_response(q["method"].encode(), timeout=DEADLINE)
             if m is None or m.timed_out:
+                # A missed deadline alone is inconclusive.  It becomes a verdict only when the harness can show the response
+                # is being WITHHELD: the origin stub has finished sending its answer for this request (or it is a cache hit),
+                # the connection is still open, a fresh request on another connection is served promptly (the proxy is alive
+                # and scheduled), and a further grace period still brings nothing.
+                arr = origin.arrivals_for(paths[i])
+                answered_upstream = hits[i] or any(a.responded for a in arr[arrivals_before[i]:])
+                if answered_upstream and not c.eof and not c.rbuf:
+                    probe = "/%s/probe%d" % (ns, i)
+                    origin.script(probe, {"status": 200, "body_b64": "", "headers": [["Cache-Control", "no-store"]]})
+                    t0 = time.time()
+                    pm = fetch(base, probe, port=port, timeout=10)
+                    responsive = pm is not None and not getattr(pm, "timed_out", False) and pm.status == 200 and time.time() - t0 < 5
+                    if responsive:
+                        m2 = c.read_response(q["method"].encode(), timeout=8)
+                        if (m2 is None or m2.timed_out) and not c.eof and not c.rbuf:
+                            r.fail("response-withheld-although-upstream-answered-and-proxy-responsive",
+                                   "no byte of response %d of %d within %d+8 s; origin had answered it (or it was cached), connection still open, a fresh request was served in %.1f s; prefetch %d" % (
+                                       i + 1, n, DEADLINE, time.time() - t0, pf))
+                            break
                 r.inconclusive = "client timed out waiting for response %d of %d" % (i + 1, n)
                 break
             if getattr(m, "bad", False):
